@@ -26,10 +26,22 @@ def r07_15(ctx, rule='R07.15'):
              floor=3)
     fi = _find(ctx, 'pool:Worker._make_protected_receive.receive')
     cfg = fi.cfg
+    parent = _find(ctx, 'pool:Worker._make_protected_receive')
+    recv_names = {st.targets[0].id for st in ast.walk(parent.node) if isinstance(st, ast.Assign)
+                  and isinstance(st.targets[0], ast.Name) and isinstance(st.value, ast.Call)
+                  and ast.unparse(st.value.func).endswith('_make_recv_method')}
+    shut_names = {st.targets[0].id for st in ast.walk(parent.node) if isinstance(st, ast.Assign)
+                  and isinstance(st.targets[0], ast.Name) and '_shutdown' in ast.unparse(st.value)}
+    q.need(recv_names, '_make_protected_receive does not build its receive primitive with _make_recv_method')
+    got = [st for st in ast.walk(fi.node) if isinstance(st, ast.Assign) and isinstance(st.targets[0], ast.Tuple)
+           and len(st.targets[0].elts) == 2 and isinstance(st.value, ast.Call)
+           and ast.unparse(st.value.func) in recv_names and isinstance(st.targets[0].elts[1], ast.Name)]
+    q.need(got, 'receive: `ready, req = _receive(...)` not found')
+    req = got[0].targets[0].elts[1].id
     cases = [
-        ('sentinel', q.outcome_edges(fi, lambda t: t.replace(' ', '') in ('reqisNone',), True)),
+        ('sentinel', q.outcome_edges(fi, lambda t: t.replace(' ', '') in ('%sisNone' % req,), True)),
         ('pipe-error-other-than-EINTR', q.outcome_edges(fi, lambda t: 'EINTR' in t and '==' in t, False)),
-        ('restart-event-set', q.outcome_edges(fi, lambda t: t.startswith('should_shutdown()'), True)),
+        ('restart-event-set', q.outcome_edges(fi, lambda t: any(t.startswith(n_ + '()') for n_ in shut_names), True)),
     ]
     for name, edges in cases:
         q.need(edges, 'receive: the test for %s was not found' % name)
@@ -40,7 +52,7 @@ def r07_15(ctx, rule='R07.15'):
                'for a worker that never leaves',
                path=None if not back else cfg.path([b for (a, b, l) in edges], [cfg.exit.id]))
     # and the pipe error is caught at all: the read sits in a try whose handler names EOFError and an OS error
-    reads = q.nodes_calling(fi, '_receive')
+    reads = q.nodes_calling(fi, lambda t: t in recv_names)
     q.need(reads, 'receive does not call _receive')
     prot = q.protected_by(fi, reads[0].ast if reads[0].ast is not None else reads[0].stmt, ('EOFError',)) and \
         (q.protected_by(fi, reads[0].ast if reads[0].ast is not None else reads[0].stmt, ('IOError',)) or
@@ -687,3 +699,28 @@ def r20_20(ctx, rule='R20.20'):
     ok = bool(tests) and all(cfg.must_pass([cfg.entry], [wn], [cfg.nodes[t] for t in tests])[0] for wn in writes)
     ctx.ob(rule, 'register:table-written-only-after-the-ownership-test', ok, fi, writes[0],
            'cls._registry[typeid] = ... is dominated by the ownership test')
+
+
+def r08_19(ctx, rule='R08.19'):
+    ctx.rule(rule, 'worker code never ignores a termination signal: no signal.signal(<TERM_SIGNAL / SIGTERM / SIGQUIT / '
+                   'SIGUSR1>, SIG_IGN) in billiard.pool or billiard.common (only SIGINT is ignored, in after_fork) -- an '
+                   'exiting worker stuck in its exit callback must stay killable by terminate()', floor=1)
+    m = ctx.model
+    seen = 0
+    bad = []
+    TERMS = ('TERM_SIGNAL', 'signal.SIGTERM', 'SIGTERM', 'signal.SIGQUIT', 'SIGQUIT', 'signal.SIGUSR1',
+             'SIG_SOFT_TIMEOUT', 'signal.SIGHUP', 'SIGHUP')
+    for qn, fi in m.funcs.items():
+        if not (qn.startswith('pool:') or qn.startswith('common:')):
+            continue
+        for st in ast.walk(fi.node):
+            if isinstance(st, ast.Call) and ast.unparse(st.func) in ('signal.signal', '_signal.signal') and len(st.args) == 2:
+                seen += 1
+                if ast.unparse(st.args[1]).endswith('SIG_IGN') and ast.unparse(st.args[0]) in TERMS:
+                    bad.append((fi, st))
+    q.need(seen, 'no signal.signal call found in pool.py / common.py')
+    ctx.ob(rule, 'worker:termination-signal-never-ignored', not bad, bad[0][0] if bad else _find(ctx, 'pool:Worker.after_fork'),
+           bad[0][1] if bad else None,
+           '%d signal.signal calls examined; only SIGINT is set to SIG_IGN' % seen if not bad else
+           '%s ignores %s: from there on terminate() / terminate_job / a hard limit cannot stop this worker' %
+           (bad[0][0].qual, ast.unparse(bad[0][1].args[0])))
